@@ -14,6 +14,7 @@
 package genql
 
 import (
+	"fmt"
 	"reflect"
 	"strings"
 )
@@ -74,6 +75,11 @@ func columnOfRows(query *Query, data any, name string) (any, error) {
 	}
 	if other, ok := otherSpelling(query, first, name); ok {
 		return ExecReader(data, other)
+	}
+	// a key that is not a plain word (`first-name`, `total amt`) is no path:
+	// it is one key of the row, as it is for the select list and for WHERE
+	if !plainWord.MatchString(name) && !strings.ContainsAny(name, ".'[]{}:|<>=") {
+		return ExecReader(data, fmt.Sprintf("'%s'", name))
 	}
 	return rs, nil
 }
